@@ -1,6 +1,8 @@
 import Rie.Proofs.Sys
 import Rie.Proofs.SysInv
 import Rie.Proofs.SysIds
+import Rie.Proofs.SysIdsMono
+import Rie.Proofs.SysResv
 import Rie.Proofs.Payload
 import Rie.Props.FrontEndTable
 
@@ -66,6 +68,33 @@ example :
     known (run {} [] (ops.take 2)).1 = [1, 1, 1] ∧
     known (run {} [] ops).1 = [1] ∧ (run {} [] ops).1.nextK = 2 ∧ (run {} [] ops).1.resv = none ∧ known ({} : State) = [] := by
   decide +kernel
+
+/-- **Request ids are never reused — whole runs.** Take any state `s1` the emulator reaches from a fresh start
+    and any state `s2` it reaches from there by ANY further ops (any scheduler choices). If an invocation is in
+    flight in both, the later one's number is not smaller than the earlier one's, and it is the same number
+    exactly when no invocation was admitted in between (the counter has not moved): two different admitted
+    invocations never share an id, however many resets, timeouts, shutdowns or restores lie between them —
+    stronger than `C01_fresh_id_run`, which compares a new id only with the ids still held.
+    `nextK_run` (`Rie/Proofs/SysIdsMono.lean`: the counter never goes back) + `RInv` (`SysResv`). -/
+theorem C01_ids_increase_run (s0 : State) (h0 : s0.resv = none) (ops1 ops2 : List (Nat × Op)) (H : List Nat) :
+    let s1 := (run s0 [] ops1).1
+    let s2 := (run s1 H ops2).1
+    ∀ r1 r2, s1.resv = some r1 → s2.resv = some r2 →
+      r1.k ≤ r2.k ∧ (r1.k = r2.k ↔ s2.nextK = s1.nextK) := by
+  intro s1 s2 r1 r2 h1 h2
+  have i0 : RInv s0 := by intro r hr; rw [h0] at hr; cases hr
+  have i1 : RInv s1 := rinv_run s0 [] ops1 i0
+  have e1 : r1.k + 1 = s1.nextK := i1 r1 h1
+  have e2 : r2.k + 1 = s2.nextK := rinv_run s1 H ops2 i1 r2 h2
+  have m : s1.nextK ≤ s2.nextK := nextK_run s1 H ops2
+  omega
+
+-- non-vacuity: the first invocation (number 1) times out and is reset; the next admitted one has number 2
+example :
+    let ops1 : List (Nat × Op) := [(0, .invoke 0 1 "a"), (0, .rtNext)]
+    let ops2 : List (Nat × Op) := [(0, .timer (.invoke 0)), (0, .timer (.resetTail 1)), (0, .invoke 1 1 "b")]
+    let s1 := (run {} [] ops1).1
+    (s1.resv.map (·.k), (run s1 [] ops2).1.resv.map (·.k)) = (some 1, some 2) := by decide +kernel
 
 /-- **To the caller of that invocation and to nobody else.** A body is written only by `sendReply`,
     and `sendReply` writes to the writer attached to the reservation whose id it was given: every
